@@ -1298,6 +1298,16 @@ def arrays_depend_on_reads(mon, run, mesh_tag, base, steps, seed_for_mut, m, his
     if sym is None:
         return False
     mname = steps[-1][1]
+    if sym == "vertex_count":
+        # a merge earlier in the history (merge_vertices / process: the listed finding - it merges fewer
+        # vertices when vertex normals are in the cache, which an earlier mutator may have put there
+        # without any read of the history) only becomes comparable at the first step that HAS reads:
+        # the symptom belongs to that merge, not to the step at which it is first seen (thorough tier,
+        # seed 1: `reassign:faces_subset` and `observer+edit_result:sample` after an unread merge)
+        for s_ in steps[:-1]:
+            if s_[1] in ("merge_vertices", "process", "process:validate"):
+                mname = s_[1]
+                break
     run.violation(
         "mut=%s sym=arrays_depend_on_reads:%s" % (mname, sym),
         "after `%s` the mesh holds different %s than the same history with nothing read before it" % (mname, sym),
@@ -1337,6 +1347,20 @@ def run_history(mon, run, mesh_tag, base, steps, seed_for_mut):
 
         if isinstance(res, trimesh.Trimesh):
             m = res
+        if mname.startswith("near_duplicate_vertex"):
+            mon.__dict__["_sliver_history"] = id(base)
+        elif mon.__dict__.get("_sliver_history") == id(base) and "similarity:" in mname and any(
+                h_["mutator"].startswith("near_duplicate_vertex") for h_ in hist[:-1]):
+            try:
+                factor = abs(float(mname.rsplit(":", 1)[1]))
+            except ValueError:
+                factor = 1.0
+            if factor < 0.1:
+                # the sliver face this mutator family builds (corners 4e-9 apart) is pushed below the
+                # library's documented resolution by a shrinking similarity (cross product under
+                # tol.zero): same ruling as for whole meshes below (thorough tier, seed 1)
+                run.skip("sliver face shrunk below the library's documented resolution: history ends")
+                break
         # (taken now: the reference history below runs the same function again)
         fa_result = _FA_RESULT.pop(mname, _FA_RESULT)
         if len(m.faces) == 0 or len(m.vertices) == 0:
